@@ -59,6 +59,23 @@ OPTS = [
 ]
 
 
+def id_scheme(parent, k):
+    """ids need to be unique among siblings only.  k % 3 = 0: all different; 1: the position among the siblings ('c0', 'c1',
+    ...: every path repeats ids, a child is named like the root); 2: a first child is named like its parent"""
+    n = len(parent)
+    if k % 3 == 0:
+        return None
+    ids, seen = [], {}
+    for i, p in enumerate(parent, 1):
+        j = seen.get(p, 0)
+        seen[p] = j + 1
+        if k % 3 == 1:
+            ids.append('c%d' % j)
+        else:
+            ids.append(ids[p - 1] if (p >= 1 and j == 0) else 'n%d' % i)
+    return ids
+
+
 def mkopt(o, n, rng):
     opt = dict(tree.DEFAULT_OPT)
     opt.update(o)
@@ -77,10 +94,10 @@ def apply_rank(nodes, opt):
 def lockstep(item):
     tid, recs = item
     parent, opt = _TREES[tid - 1]
-    nodes = tree.build(parent)
+    nodes = tree.build(parent, id_scheme(parent, tid))
     apply_rank(nodes, opt)
     src = tree.source(opt, variant=tid)
-    num = {n.nid: i + 1 for i, n in enumerate(nodes)}
+    num = {n.uid: i + 1 for i, n in enumerate(nodes)}
     real = {}          # frozenset(exp) -> (cookie, links)
     todo = list(recs)
     bad = []
@@ -100,7 +117,7 @@ def lockstep(item):
                     o = tree.request(nodes, src=src)
                 elif r['op'] == 'click':
                     cookie, links = real[src_]
-                    nid = nodes[r['x'] - 1].nid
+                    nid = nodes[r['x'] - 1].uid
                     if nid not in links:
                         bad.append({'step': r, 'why': 'node %s carries no link in the source state' % nid})
                         continue
@@ -115,7 +132,7 @@ def lockstep(item):
             done += 1
             rows = [[k, num.get(x, x)] for k, x in o['items']]
             links = sorted([num.get(k, k), 'c' if v[0] == 'tree-c' else 'e'] for k, v in o['links'].items())
-            state = sorted(num.get(x, x) for x in o['state'] if x != nodes[0].nid)
+            state = sorted(num.get(x, x) for x in o['state'] if x != nodes[0].uid)
             why = []
             if rows != r['rows']:
                 why.append('rows %s expected %s' % (rows, r['rows']))
@@ -163,8 +180,10 @@ def random_history(seed):
     if big:
         style = rng.choice(['a-rather-long-identifier-as-found-in-real-sites-with-many-characters-%d', 'Ωμέγα-' * 8 + '%d'])
     ids = [(style % i) if '%d' in style else style + str(i) for i in range(1, n + 1)]
+    if seed % 4 == 1:
+        ids = id_scheme(par2, 1 + seed % 2)
     nodes = tree.build(par2, ids)
-    num = {nd.nid: i + 1 for i, nd in enumerate(nodes)}
+    num = {nd.uid: i + 1 for i, nd in enumerate(nodes)}
     steps = []
     opt = mkopt(rng.choice(OPTS), n, rng)
     apply_rank(nodes, opt)
@@ -173,7 +192,7 @@ def random_history(seed):
 
     def rec(op, x, o):
         steps.append({'op': op, 'x': x, 'rows': [[k, num[r]] for k, r in o['items']],
-                      'state': sorted(num[s] for s in o['state'] if s != nodes[0].nid),
+                      'state': sorted(num.get(s, -1) for s in o['state'] if s != nodes[0].uid),
                       'links': sorted([num[k], 'c' if v[0] == 'tree-c' else 'e'] for k, v in o['links'].items())})
     rec('init', 0, o)
     err = None
@@ -239,7 +258,7 @@ def main(tier):
     cases = [{'n': len(p), 'parent': p, 'opt': {k: v for k, v in o.items() if k != 'sorted'}} for p, o in _TREES]
     out = []
     res = tlc.run('DTTree', CFG, files={'cases.json': json.dumps(cases)}, on_print=out.append, keep_prints=False,
-                  timeout=3000)
+                  timeout=3000, extra_java=['-Xss256m'])
     if res.violated:
         raise tlc.TLCFailure('DTTree machine violates %s\n%s' % (res.violated, (res.error_trace or '')[:1500]))
     states, trans = res.distinct, res.generated
@@ -274,7 +293,8 @@ def main(tier):
         traces.append(h)
     ocfg = 'INIT OInit\nNEXT ONext\nINVARIANT Verdict\nCHECK_DEADLOCK FALSE\n'
     r2 = tlc.run('ObsTree', ocfg, files={'cases.json': json.dumps(
-        [{'n': h['n'], 'parent': h['parent'], 'opt': {k: v for k, v in h['opt'].items() if k != 'sorted'}, 'steps': h['steps']} for h in traces])}, workers=8, timeout=3000)
+        [{'n': h['n'], 'parent': h['parent'], 'opt': {k: v for k, v in h['opt'].items() if k != 'sorted'}, 'steps': h['steps']} for h in traces])}, workers=8, timeout=3000,
+                 extra_java=['-Xss256m'])      # Rows is recursive over trees of up to 160 nodes
     states += r2.distinct
     trans += r2.generated
     verd = {v['tid'] - 1: v for v in r2.prints if 'accepted' in v}
@@ -309,7 +329,7 @@ def main(tier):
                    'random histories up to 40 validated by TLC; codec round trips over random states',
            'samples': [out[len(out) // 2], {'tree': _TREES[-1][0], 'source': tree.source(_TREES[-1][1])}],
            'option_records': OPTS}
-    return V.finish(cov, assumptions=['zlib, base64 and json are trusted primitives; ids are unique strings',
+    return V.finish(cov, assumptions=['zlib, base64 and json are trusted primitives; ids are strings unique among siblings (a third of the trees repeat ids along paths)',
                                       'options covered: assume_children, leaves, header, footer, single, sort, reverse (modelled), branches / branches_expr / id / nowrap / prefix / urlparam (spellings the model does not distinguish)'])
 
 
